@@ -185,10 +185,10 @@ theorem bptGo_eq (v k : Nat) : bptGo v k 0 = Spec.biggestPowerOfTwo (v % 2 ^ k) 
     · have hb' : v.testBit k = false := by simpa using hb
       simp [hb', ih]
 
-theorem biggestPowerOfTwo_eq (w v : Nat) (hw : w < 32) (hv : v < 2 ^ w) :
-    biggestPowerOfTwo w v = some (Spec.biggestPowerOfTwo v) := by
+theorem biggestPowerOfTwo_eq (w v : Nat) (hv : v < 2 ^ w) :
+    biggestPowerOfTwo w v = Spec.biggestPowerOfTwo v := by
   unfold biggestPowerOfTwo
-  rw [if_neg (by omega), bptGo_eq, Nat.mod_eq_of_lt hv]
+  rw [bptGo_eq, Nat.mod_eq_of_lt hv]
 
 /-! ### min / max -/
 
@@ -212,27 +212,36 @@ theorem toInt_of_lt {w v : Nat} (hw : 0 < w) (hv : v < 2 ^ w) :
   have : w ≠ 0 := by omega
   simp [this]
 
-/-- the subtract-and-look-at-the-sign comparison is right as long as the true difference fits in `w` bits -/
-theorem subSign_eq (w x y : Nat) (hw : 0 < w) (hx : x < 2 ^ w) (hy : y < 2 ^ w)
-    (hfit : -(2 ^ (w - 1) : Nat) ≤ toInt w x - toInt w y ∧ toInt w x - toInt w y < (2 ^ (w - 1) : Nat)) :
-    subSign w x y = decide (toInt w x < toInt w y) := by
-  unfold subSign
+/-- the frontend's signed comparison (subtract the sign-extended operands in `w+1` bits, take the sign) is `<` on the integers -/
+theorem ltS_eq (w x y : Nat) (hw : 0 < w) (hx : x < 2 ^ w) (hy : y < 2 ^ w) :
+    ltS w x y = decide (toInt w x < toInt w y) := by
+  unfold ltS sext1
   have hp : 2 ^ w = 2 * 2 ^ (w - 1) := by
     rw [← Nat.pow_succ']; congr 1; omega
-  have hlt : (x + 2 ^ w - y) % 2 ^ w < 2 ^ w := Nat.mod_lt _ (Nat.two_pow_pos w)
-  rw [testBit_top hw hlt]
-  rw [toInt_of_lt hw hx, toInt_of_lt hw hy] at hfit ⊢
+  have hp1 : 2 ^ (w + 1) = 2 * 2 ^ w := by rw [Nat.pow_succ]; omega
+  have hlt : (((if w ≠ 0 ∧ x.testBit (w - 1) = true then x + 2 ^ w else x) + 2 ^ (w + 1) -
+      (if w ≠ 0 ∧ y.testBit (w - 1) = true then y + 2 ^ w else y)) % 2 ^ (w + 1)) < 2 ^ (w + 1) :=
+    Nat.mod_lt _ (Nat.two_pow_pos _)
+  have htop := testBit_top (w := w + 1) (by omega) hlt
+  rw [Nat.add_sub_cancel] at htop
+  rw [htop, toInt_of_lt hw hx, toInt_of_lt hw hy, testBit_top hw hx, testBit_top hw hy]
+  have hne : w ≠ 0 := by omega
+  simp only [hne, ne_eq, not_false_eq_true, true_and, decide_eq_true_eq]
   have hP := Nat.two_pow_pos (w - 1)
+  rw [hp1]
   generalize 2 ^ (w - 1) = P at *
   generalize 2 ^ w = M at *
   subst hp
-  by_cases hxy : y ≤ x
-  · have e : (x + 2 * P - y) % (2 * P) = x - y := by
-      rw [show x + 2 * P - y = (x - y) + 2 * P by omega, Nat.add_mod_right, Nat.mod_eq_of_lt (by omega)]
-    rw [e]
-    split at hfit <;> split at hfit <;> simp only [decide_eq_decide] <;> omega
-  · have e : (x + 2 * P - y) % (2 * P) = x + 2 * P - y := Nat.mod_eq_of_lt (by omega)
-    rw [e]
-    split at hfit <;> split at hfit <;> simp only [decide_eq_decide] <;> omega
+  clear hlt htop
+  have key : ∀ (X Y : Nat), X < 4 * P → Y < 4 * P →
+      (2 * P ≤ (X + 2 * (2 * P) - Y) % (2 * (2 * P)) ↔ (Y ≤ X ∧ 2 * P ≤ X - Y) ∨ (X < Y ∧ Y - X ≤ 2 * P)) := by
+    intro X Y hX hY
+    by_cases h : Y ≤ X
+    · rw [show X + 2 * (2 * P) - Y = (X - Y) + 2 * (2 * P) by omega, Nat.add_mod_right, Nat.mod_eq_of_lt (by omega)]
+      omega
+    · rw [Nat.mod_eq_of_lt (by omega)]
+      omega
+  by_cases h1 : P ≤ x <;> by_cases h2 : P ≤ y <;> simp only [h1, h2, if_true, if_false, decide_eq_decide] <;>
+    rw [key _ _ (by omega) (by omega)] <;> omega
 
 end Gatery.C17
